@@ -19,6 +19,7 @@ CLAIMED = {
     'C18': ('model_checking', '§6 C18', 'Four containers: every history of <=3 (thorough 4) mutating calls (insert of 4 harness nodes incl. a second allocation with an existing key, remove, edge operations on members and non-members) followed by every observer (get, contains, len, is_empty, to_vec, iter, roots, leaves, orphans; index probes) is compared with a dict model; handles must be the inserted allocation; DOT exports are executed through the fmt model and compared line-structurally with the members and their iterated edges and the attributes supplied.'),
     'C12': ('model_checking', '§6 C12', 'Round trip decided at the serde data-model boundary: gdsl\'s real serialize / graph_serde_decompose / visit_seq MIR is executed against a stub Serializer that records the 2-tuple of sequences and a stub SeqAccess that hands it back; node and edge values symbolic, the hash map\'s iteration order a free choice; the rebuilt graph must have the same members, values and per-node out-lists (directed, in order) / incident multisets (undirected). JSON and CBOR are exercised natively on validation scenarios and replays (and must agree), not encoded.'),
     'C13': ('model_checking', '§6 C13', 'Every document visit_seq can be handed within the bound (node list with repeated keys, edge list with undeclared endpoints, either list absent or replaced by an element the format reports as an error) is executed through the real visit_seq MIR: no panic, Err whenever an edge names an undeclared key, Ok graphs satisfy the C01/C02 invariants and contain only nodes and edges of the document. Byte-level parsing is outside.'),
+    'C19': ('model_checking', '§6 C19', 'Executor Rc/Arc count model with drop events on all four flavours: for every graph of the bound, optional container membership, optional kept search result (path, node, cycle, node vector, edge vector) and a family of drop orders, the release counter of every node value is compared after every drop with the set of handles still held: never released while held (directly, through the container or through a kept result), kept results stay usable, and released exactly once when the last handle is gone (cycles and self-loops included). Native replays observe releases through a drop-counting payload.'),
 }
 NOTE = 'Trusted base: engine A std models (validated differentially against the native build on every run), rustc MIR dump = compiled code, z3. Bounds in evidence.coverage.bounds.'
 TECH = 'bounded symbolic execution of rustc MIR (own executor) + z3; native replay of counterexamples'
